@@ -263,7 +263,9 @@ func StateRules(cmd *Cmd, client int, d Diff, touched map[string]bool) []string 
 	other := client != cmd.C || (len(touched) > 0 && !touched[d.Table])
 	switch d.Comp {
 	case "idx-scan", "idx-part":
-		rules = append(rules, "C03.view")
+		// reading through the index returned the wrong items: C03's mirror
+		// clause, and C02's "precisely the items of the addressed index"
+		rules = append(rules, "C03.view", "C02.set")
 	case "idx-order":
 		rules = append(rules, "C02.order")
 	case "idx-count":
@@ -289,7 +291,7 @@ func StateRules(cmd *Cmd, client int, d Diff, touched map[string]bool) []string 
 		default:
 			rules = append(rules, "C01.state")
 		}
-		if d.Comp == "part" {
+		if d.Comp == "part" || d.Comp == "scan" {
 			rules = append(rules, "C02.set")
 		}
 	}
